@@ -181,6 +181,10 @@ def run(prop, tier, seed):
     for index in range(count):
         hseed = seed * 1000003 + index * 7919 + sum(ord(c) for c in prop)
         hists.append(gen_plugin.generate(hseed, focuses[index % len(focuses)]))
+    if prop in ("C12", "C13"):
+        # requests that differ from the registered geometry by a few 1e-4 mm (judged exactly)
+        for index in range(count // 2):
+            hists.append(gen_plugin.fine_history(seed * 1000003 + index * 7919 + 12))
     mhists, mcs = model_guided(prop, tier, seed)
     hists = mhists + hists
     # record and validate in batches (thorough runs use thousands of histories)
@@ -269,6 +273,7 @@ def replay(payload):
     hj = payload["history"]
     hist = gen_plugin.History(hj.get("seed", 0), hj.get("g90e", False))
     hist.steps = [tuple(s) for s in hj["steps"]]
+    hist.q = hj.get("q", record.Q_TRACE)
     trace = record.run_plugin_history(hist, 1)
     verdicts = common.validate_traces("TraceT2", "TraceT2.cfg", [trace], "replay")
     verdict = verdicts[0]["v"][payload["property"]]
